@@ -56,6 +56,7 @@ ASSUMPTIONS = [
     'datatypes are their snapshot names, t.__mro__ is the table emitted with the generated terms, dicts keep the last item of a key, '
     'an exception kind is a function of the class and the leading constant text of the message; `self._compile`, `is_aggregate`, '
     '`check_aggregates`, `_bases` are opaque callables in the theorems about their callers (assumed to return the model\'s value)',
+    'translator tie of the statement level (bld-compiler3; C05_source_select_run / _flow; Gen/SrcSelect.v regenerated from compiler.py on every run): trusted in addition to the C05_source_* base: translator rules K12-K14 of harness/vf/src_compiler.py - K12 STATE THREADING: a call `x = self.m(..)` of a Compiler method that may assign self.table (the set of such attributes and methods is recomputed from the live class by threading_info and emitted next to the terms; the proofs check it is ["table"]) is read as `self.table, x = self.m(self.table, ..)`, i.e. an opaque callable that receives the table and returns the table it leaves behind next to its value; such a call anywhere else than as the whole right-hand side of an assignment is rejected; K13 set(..)/set comparison as order-insensitive list operations; K14 the leading constant of \'..{}\'.format(..) selects the exception kind - and the encodings of coq/Model/PrimsSelect.v: a table is any value with hasattr(t,\'update\') / t.update(open=,close=,clear=) uninterpreted, EvalQuery / EvalPivot are records of their constructor arguments, str.format/join are uninterpreted text; the receiver\'s attributes are a concrete prefix (its table and its methods as opaque callables) followed by an arbitrary rest; what the opaque callables return is a hypothesis of each theorem (the model\'s value; for C08_source_table_restored: ANY table and any well-shaped result)',
 ]
 
 # The tables are EMPTY on purpose: an exception at execution over empty tables is independent of the data, i.e. a
@@ -1164,6 +1165,9 @@ def generate():
         info.update(gen_src.generate('lookup'))
         info.update(gen_src.generate('compiler'))
         info['src_compiler_outside_fragment'] = dict(src_compiler.Group.skipped)
+        # bld-compiler3: Compiler._select -> coq/Gen/SrcSelect.v (state threading K12, Proofs/SrcSelect.v)
+        info.update(gen_src.generate('select'))
+        info['src_select_threading'] = dict(src_compiler.SelectGroup.info)
     except Exception as e:  # noqa: BLE001  (reported by run.py as translator-failed)
         src_failure = e
     n, bad = agg_dtype_rule_check()
